@@ -125,7 +125,16 @@ func CmdLock(cfg RunConfig) int {
 	dir := filepath.Join(os.TempDir(), "govc-smt", cfg.Prop)
 	os.RemoveAll(dir)
 	defer os.RemoveAll(dir)
-	SolveAll(res.Obls, dir, to)
+	var fast, slow []*Obligation
+	for _, o := range res.Obls {
+		if o.Slow {
+			slow = append(slow, o)
+		} else {
+			fast = append(fast, o)
+		}
+	}
+	SolveAll(fast, dir, to)
+	SolveAll(slow, dir, 180)
 	findings := ReadFindings(filepath.Join(cfg.VerifDir, "known-findings.txt"))
 	known := map[string]bool{}
 	for _, f := range findings {
